@@ -1342,3 +1342,129 @@ impl Modeled for TrailingCommaE {
 		1
 	}
 }
+
+// ---------------------------------------------------------------------------------------------
+// Round 6
+// ---------------------------------------------------------------------------------------------
+
+/// `index` attributes spelled with a radix prefix, a type suffix, digit separators.
+#[derive(Encode, Decode, DecodeWithMemTracking, MaxEncodedLen, PartialEq, Eq, Debug, Clone, Copy)]
+pub enum LitIndex {
+	#[codec(index = 0x10)]
+	A,
+	#[codec(index = 0b11)]
+	B,
+	#[codec(index = 7u8)]
+	C,
+	#[codec(index = 1_0)]
+	D,
+	#[codec(index = 0o17)]
+	E(u8),
+}
+impl Modeled for LitIndex {
+	fn ty(_d: usize) -> String {
+		"enum 5 16 tup 0 3 tup 0 7 tup 0 10 tup 0 15 tup 1 u8".into()
+	}
+	fn val(&self, out: &mut String, _c: bool) {
+		match self {
+			LitIndex::A => out.push_str("V 16 L 0"),
+			LitIndex::B => out.push_str("V 3 L 0"),
+			LitIndex::C => out.push_str("V 7 L 0"),
+			LitIndex::D => out.push_str("V 10 L 0"),
+			LitIndex::E(x) => write!(out, "V 15 L 1 n{}", x).unwrap(),
+		}
+	}
+	fn gen(g: &mut G) -> Self {
+		match g.rng.below(5) {
+			0 => LitIndex::A,
+			1 => LitIndex::B,
+			2 => LitIndex::C,
+			3 => LitIndex::D,
+			_ => LitIndex::E(u8::gen(g)),
+		}
+	}
+	fn min_len() -> usize {
+		1
+	}
+}
+
+/// `encoded_as` naming a type that is not a path (an array, a tuple), through user-written
+/// `EncodeAsRef` impls: a port number stored in network byte order, a span as two compacts.
+#[derive(PartialEq, Eq, Debug, Clone, Copy, Encode, Decode)]
+pub struct Port(pub u16);
+impl<'a> From<&'a Port> for [u8; 2] {
+	fn from(p: &'a Port) -> [u8; 2] {
+		p.0.to_be_bytes()
+	}
+}
+impl From<[u8; 2]> for Port {
+	fn from(b: [u8; 2]) -> Port {
+		Port(u16::from_be_bytes(b))
+	}
+}
+impl<'a> parity_scale_codec::EncodeAsRef<'a, Port> for [u8; 2] {
+	type RefType = [u8; 2];
+}
+#[derive(PartialEq, Eq, Debug, Clone, Copy, Encode, Decode)]
+pub struct Span(pub u32, pub u32);
+impl<'a> From<&'a Span> for (Compact<u32>, Compact<u32>) {
+	fn from(s: &'a Span) -> Self {
+		(Compact(s.0), Compact(s.1))
+	}
+}
+impl From<(Compact<u32>, Compact<u32>)> for Span {
+	fn from(t: (Compact<u32>, Compact<u32>)) -> Span {
+		Span((t.0).0, (t.1).0)
+	}
+}
+impl<'a> parity_scale_codec::EncodeAsRef<'a, Span> for (Compact<u32>, Compact<u32>) {
+	type RefType = (Compact<u32>, Compact<u32>);
+}
+#[derive(Encode, Decode, PartialEq, Eq, Debug, Clone)]
+pub struct NonPathAs {
+	pub tag: u8,
+	#[codec(encoded_as = "[u8; 2]")]
+	pub port: Port,
+	#[codec(encoded_as = "(Compact<u32>, Compact<u32>)")]
+	pub span: Span,
+}
+impl Modeled for NonPathAs {
+	fn ty(_d: usize) -> String {
+		"tup 3 u8 arr 2 u8 tup 2 c 4 c 4".into()
+	}
+	fn val(&self, out: &mut String, _c: bool) {
+		let b = self.port.0.to_be_bytes();
+		write!(out, "L 3 n{} L 2 n{} n{} L 2 n{} n{}", self.tag, b[0], b[1], self.span.0, self.span.1).unwrap();
+	}
+	fn gen(g: &mut G) -> Self {
+		NonPathAs { tag: u8::gen(g), port: Port(u16::gen(g)), span: Span(u32::gen(g), u32::gen(g)) }
+	}
+	fn min_len() -> usize {
+		5
+	}
+}
+#[derive(Encode, Decode, PartialEq, Eq, Debug, Clone)]
+pub struct SingleNonPathAs(#[codec(encoded_as = "[u8; 2]")] pub Port);
+impl Modeled for SingleNonPathAs {
+	fn ty(_d: usize) -> String {
+		"tup 1 arr 2 u8".into()
+	}
+	fn val(&self, out: &mut String, _c: bool) {
+		let b = (self.0).0.to_be_bytes();
+		write!(out, "L 1 L 2 n{} n{}", b[0], b[1]).unwrap();
+	}
+	fn gen(g: &mut G) -> Self {
+		SingleNonPathAs(Port(u16::gen(g)))
+	}
+	fn min_len() -> usize {
+		2
+	}
+}
+
+/// A derived struct holding a derived enum that may sit in a skipped variant.
+#[derive(Encode, PartialEq, Debug, Clone)]
+pub struct HoldsSkippable {
+	pub a: u8,
+	pub e: Mixed,
+	pub b: u16,
+}
